@@ -213,3 +213,366 @@ def c08_histories(run):
     finally:
         w.__exit__(None, None, None)
     return acc.result()
+
+
+# ------------------------------------------------------------------ C07 defaults and descriptions survive
+def exec_generated(elements):
+    """Execute the generated Python module in a namespace holding nothing; returns the namespace."""
+    from statham.serializers.python import serialize_python
+    src = serialize_python(*elements)
+    ns = {}
+    exec(compile(src, "<generated>", "exec"), ns)
+    return src, ns
+
+
+def c07_defaults(run):
+    from statham.schema.parser import parse_element, parse
+    from statham.schema.constants import NotPassed
+    from statham.schema.elements.meta import ObjectMeta
+    from statham.serializers.json import serialize_json
+    docs = schemas.with_defaults()
+    acc = Acc(run, "C07-defaults", f"{len(docs)} schemas: 12 default literals x 14 shapes a default can sit on; parse, JSON and Python serialisation")
+    w = quiet()
+    try:
+        for S in docs:
+            key = jkey(S)
+            try:
+                E = parse_element(copy.deepcopy(S))
+            except Exception as e:
+                acc.case(key)
+                acc.fail(key, f"parse raised {type(e).__name__}: {e}")
+                continue
+            acc.case(key)
+            def chk(el, sch, where):
+                if "default" in sch:
+                    got = getattr(el, "default", NotPassed())
+                    if isinstance(got, NotPassed) or not pyspec.same(got, sch["default"]):
+                        acc.fail(key, f"{where}: schema default {sch['default']!r} but parsed element carries {got!r}")
+                        return False
+                return True
+            if "default" in S:
+                if chk(E, S, "top level"):
+                    try:
+                        J = serialize_json(E)
+                        if "default" not in J or not pyspec.same(J["default"], S["default"]):
+                            acc.fail(key + " [json]", f"JSON serialisation carries default {J.get('default', '<absent>')!r}, schema said {S['default']!r}")
+                    except Exception as e:
+                        acc.fail(key + " [json]", f"serialize_json raised {type(e).__name__}: {e}")
+            for pname, psch in (S.get("properties") or {}).items():
+                if isinstance(psch, dict) and "default" in psch:
+                    props = getattr(E, "properties", None) or {}
+                    pr = [p for p in props.values() if p.source == pname]
+                    if not pr:
+                        acc.fail(key, f"property {pname} lost")
+                    else:
+                        chk(pr[0].element, psch, f"property {pname}")
+            # an inner default must stay where it was declared (not overwritten by / moved to the outer one)
+            for comp in ("allOf", "anyOf", "oneOf"):
+                for j, sub in enumerate(S.get(comp, [])):
+                    if isinstance(sub, dict) and "default" in sub and "default" in S and not pyspec.same(sub["default"], S["default"]):
+                        inner = [x for x in [E] + list(getattr(E, "elements", [])) if getattr(x, "default", None) == sub["default"]]
+                        if not inner and not isinstance(E, ObjectMeta):
+                            acc.fail(key + " [inner]", f"default {sub['default']!r} declared on {comp}[{j}] is gone after parsing (outer default {S['default']!r})")
+            if isinstance(E, ObjectMeta) or any(isinstance(getattr(p, "element", None), ObjectMeta) for p in (getattr(E, "properties", None) or {}).values()):
+                try:
+                    src, ns = exec_generated([E])
+                    for name, obj in ns.items():
+                        if isinstance(obj, ObjectMeta) and obj.__name__ == getattr(E, "__name__", None):
+                            if "default" in S and not pyspec.same(getattr(obj, "default", NotPassed()), E.default):
+                                acc.fail(key + " [python]", f"generated class default {getattr(obj, 'default', None)!r} != parsed {E.default!r}")
+                except Exception as e:
+                    acc.fail(key + " [python]", f"generated module failed: {type(e).__name__}: {e}")
+    finally:
+        w.__exit__(None, None, None)
+    return acc.result()
+
+
+DESCRIPTIONS = ["plain", "with 'single' quotes", 'with "double" quotes', 'ends with quote"', "back\\slash", "a\\nb", "line1\nline2",
+                "tab\there", "unicode é 日本 ✓", '"""triple"""', "trailing backslash\\", " leading space", "{braces}", "%s percent", "", "ends with backslash quote\\\"", "q\"\"", "cr\rlf"]
+
+
+def c07_descriptions(run):
+    from statham.schema.parser import parse_element
+    acc = Acc(run, "C07-descriptions", f"{len(DESCRIPTIONS)} description strings (quotes, backslashes, newlines, non-ASCII) on an object schema")
+    w = quiet()
+    try:
+        for d in DESCRIPTIONS:
+            S = {"type": "object", "title": "Doc", "description": d, "properties": {"a": {"type": "string"}}}
+            key = jkey(d)
+            acc.case(key)
+            try:
+                E = parse_element(copy.deepcopy(S))
+            except Exception as e:
+                acc.fail(key, f"parse raised {type(e).__name__}: {e}")
+                continue
+            if E.description != d:
+                acc.fail(key, f"class description {E.description!r} != schema description {d!r}")
+                continue
+            if d == "":
+                continue
+            try:
+                src, ns = exec_generated([E])
+                G = ns["Doc"]
+                if G.description != d:
+                    acc.fail(key + " [python]", f"generated class description {G.description!r} != {d!r}")
+            except Exception as e:
+                acc.fail(key + " [python]", f"generated module failed: {type(e).__name__}: {e}")
+    finally:
+        w.__exit__(None, None, None)
+    return acc.result()
+
+
+# ------------------------------------------------------------------ C09 determinism across hash seeds
+C09_DOCS = [
+    {"type": "object", "title": "Root", "properties": {
+        "a": {"anyOf": [{"type": "object", "title": "T", "properties": {"x": {"type": "string"}}}],
+              "oneOf": [{"type": "object", "title": "T", "properties": {"y": {"type": "string"}}}],
+              "allOf": [{"type": "object", "title": "T", "properties": {"z": {"type": "string"}}}]}}},
+    {"type": "object", "title": "R2", "properties": {
+        "p": {"type": "array", "items": {"type": "object", "title": "It", "properties": {"k": {"type": "integer"}}}},
+        "q": {"type": ["string", "null"]}, "r": {"type": "object", "title": "It", "properties": {"k": {"type": "string"}}},
+        "s": {"not": {"type": "object", "title": "It"}}, "u": {"type": "array", "items": [{"type": "number"}, {"type": "boolean"}]}}},
+    {"title": "NoObj", "anyOf": [{"type": "string"}, {"type": "integer"}]},
+    {"type": "object", "title": "Deps", "dependencies": {"a": {"type": "object", "title": "D1"}, "b": ["a"]},
+     "patternProperties": {"^x": {"type": "object", "title": "D1", "required": ["q"]}},
+     "additionalProperties": {"type": "object", "title": "D2"}, "propertyNames": {"maxLength": 3}},
+]
+
+
+def c09_hashseeds(run):
+    import os
+    import subprocess
+    import tempfile
+    import shutil
+    seeds = [0, 1, 2, 3] if run.tier == "quick" else list(range(12))
+    acc = Acc(run, "C09-hashseeds", f"{len(C09_DOCS)} documents x PYTHONHASHSEED in {seeds}: `python -m statham`, serialize_json of parse()")
+    repo = os.environ.get("STATHAM_REPO", "/repo")
+    tmp = tempfile.mkdtemp(prefix="pyvc_c09_")
+    prog = ("import sys, json; sys.path.insert(0, %r)\n"
+            "from statham.__main__ import main\nfrom statham.schema.parser import parse\nfrom statham.serializers.json import serialize_json\n"
+            "from json_ref_dict import materialize, RefDict\nfrom statham.titles import title_labeller\n"
+            "print(main(sys.argv[1]))\n"
+            "els = parse(materialize(RefDict.from_uri(sys.argv[1]), context_labeller=title_labeller()))\n"
+            "print(json.dumps(serialize_json(*els)))\nprint([getattr(e, '__name__', None) for e in els])\n" % repo)
+    try:
+        for i, doc in enumerate(C09_DOCS):
+            path = os.path.join(tmp, f"doc{i}.json")
+            json.dump(doc, open(path, "w"))
+            outs = {}
+            for s in seeds:
+                env = dict(os.environ, PYTHONHASHSEED=str(s), PYTHONPATH=repo)
+                p = subprocess.run(["/venv/bin/python", "-c", prog, path + "#/"], capture_output=True, text=True, env=env, timeout=120)
+                outs[s] = (p.returncode, p.stdout, p.stderr[-300:] if p.returncode else "")
+                acc.case(f"doc{i}/seed{s}")
+            distinct = {v for v in outs.values()}
+            if len(distinct) > 1:
+                a, b = sorted(outs.items())[0], next(x for x in sorted(outs.items()) if x[1] != sorted(outs.items())[0][1])
+                acc.fail(f"doc{i}:{jkey(doc)[:150]}", f"output differs between PYTHONHASHSEED={a[0]} and {b[0]}",
+                         extra={"out_a": a[1][1][:800], "out_b": b[1][1][:800]})
+    finally:
+        shutil.rmtree(tmp, ignore_errors=True)
+    return acc.result()
+
+
+# ------------------------------------------------------------------ C05 defaults
+def c05_object_pool():
+    from statham.schema.elements import (Array, Element, Integer, Number, Object, String, AnyOf, Boolean)
+    from statham.schema.property import Property
+
+    def plain():
+        class A(Object):
+            s = Property(String(default="dflt"))
+            n = Property(Integer(default=3))
+            f = Property(Number(default=2))
+            l = Property(Array(Integer(), default=[1, 2]))
+            bad = Property(Integer(default="not-an-int"))
+            none = Property(String())
+            z = Property(Element(default=0))
+            e = Property(Element(default=""))
+            fl = Property(Boolean(default=False))
+        return A
+
+    def renamed():
+        class R(Object):
+            class_ = Property(String(default="dflt"), source="class")
+            a_b = Property(Integer(default=7), source="a-b")
+            req_ = Property(String(default="r"), source="req", required=True)
+        return R
+
+    def nested():
+        class In(Object, default={"x": "inner"}):
+            x = Property(String(default="xd"))
+
+        class Out(Object):
+            inner = Property(In)
+            arr = Property(Array(In, default=[{"x": "1"}, {}]))
+            any_ = Property(AnyOf(String(), Integer(), default=5))
+        return Out
+
+    def clsdefault():
+        class D(Object, default={"a": "from-class-default"}):
+            a = Property(String(default="prop-default"))
+            b = Property(Integer(default=1))
+        return D
+
+    def untyped():
+        return Element(properties={"a": Property(String(default="ud")), "b_c": Property(Integer(default=4), source="b-c"),
+                                   "n": Property(Number(default=1))})
+    return [plain, renamed, nested, clsdefault, untyped]
+
+
+def c05_defaults(run):
+    import itertools
+    from statham.schema.constants import NotPassed
+    from statham.schema.elements.meta import ObjectMeta
+    acc = Acc(run, "C05-defaults", "5 object schemas (class/untyped, renamed, nested, valid/invalid defaults) x all subsets of supplied properties (<= 64 per schema); every pool element called with no value")
+    w = quiet()
+    try:
+        for mk in c05_object_pool():
+            E = mk()
+            props = dict(E.properties)
+            names = list(props)
+            subsets = list(itertools.chain.from_iterable(itertools.combinations(names, r) for r in range(len(names) + 1)))[:64]
+            for sub in subsets:
+                data = {}
+                for n in sub:
+                    p = props[n]
+                    d = getattr(p.element, "default", NotPassed())
+                    sample = {"String": "supplied", "Integer": 42, "Number": 4.5, "Array": [9], "Boolean": True, "Element": "sup", "AnyOf": "s"}.get(type(p.element).__name__)
+                    if isinstance(p.element, ObjectMeta):
+                        sample = {"x": "given"}
+                    if p.source == "arr":
+                        sample = [{"x": "given"}]
+                    data[p.source] = sample
+                key = f"{edesc(E)} <- {jkey(data)}"
+                kind, model = outcome(E, copy.deepcopy(data))
+                acc.case(key)
+                if kind != "ok":
+                    acc.fail(key, f"construction failed: {model!r:.120}")
+                    continue
+                for n, p in props.items():
+                    try:
+                        got = getattr(model, n)
+                    except (AttributeError, KeyError) as ex:
+                        acc.fail(key, f"declared property {n} (JSON name {p.source!r}) not readable under its Python name: {type(ex).__name__}")
+                        continue
+                    d = getattr(p.element, "default", NotPassed())
+                    if p.source in data:
+                        k2, want = outcome(p.element, copy.deepcopy(data[p.source]))
+                        if k2 == "ok" and obs(got) != obs(want):
+                            acc.fail(key, f"supplied value for {p.source!r} was replaced: model.{n} = {got!r}, expected {want!r}")
+                    elif isinstance(d, NotPassed):
+                        if not isinstance(got, NotPassed):
+                            acc.fail(key, f"omitted property {p.source!r} without default: model.{n} = {got!r}, expected NotPassed")
+                    else:
+                        k2, conv = outcome(p.element, copy.deepcopy(d))
+                        want = conv if k2 == "ok" else d
+                        if obs(got) != obs(want):
+                            acc.fail(key, f"omitted property {p.source!r} (Python name {n}): model.{n} = {got!r}, expected its default {want!r}")
+        # calling any element with no value
+        for i, mk, e in element_cases(2):
+            d = getattr(e, "default", NotPassed())
+            key = f"{edesc(e)}()"
+            try:
+                got = e(NotPassed()) if not isinstance(e, type) else e()
+            except Exception as ex:
+                acc.case(key)
+                acc.fail(key, f"calling with no value raised {type(ex).__name__}: {ex}")
+                continue
+            acc.case(key, nontrivial=not isinstance(d, NotPassed))
+            if isinstance(d, NotPassed):
+                if not isinstance(got, NotPassed):
+                    acc.fail(key, f"no default, but calling with no value gave {got!r}")
+            else:
+                k2, conv = outcome(e, copy.deepcopy(d))
+                want = conv if k2 == "ok" else d
+                if obs(got) != obs(want):
+                    acc.fail(key, f"calling with no value gave {got!r}, expected converted default {want!r}")
+                # each call converts afresh: mutating one result must not show in the next
+                got2 = e(NotPassed()) if not isinstance(e, type) else e()
+                if isinstance(got, (list, dict)) and got is got2 and got is not d:
+                    acc.fail(key, "two calls with no value return the same mutable object (default conversion is shared)")
+    finally:
+        w.__exit__(None, None, None)
+    return acc.result()
+
+
+# ------------------------------------------------------------------ C16 format checking
+def rfc3339_pool():
+    out = []
+    for date in ["1990-12-31", "2020-02-29", "2021-02-28", "9999-12-31", "1970-01-01", "2000-01-01"]:
+        for t in ["00:00:00", "23:59:59", "12:30:45", "23:59:60" if date == "1990-12-31" else "07:08:09"]:
+            for frac in ["", ".1", ".123", ".123456", ".123456789012"]:
+                for off in ["Z", "z", "+00:00", "-00:00", "+23:59", "-12:00", "+05:30"]:
+                    for sep in ["T", "t"]:
+                        out.append(f"{date}{sep}{t}{frac}{off}")
+    return out
+
+
+def uuid_pool():
+    import itertools
+    out = ["00000000-0000-0000-0000-000000000000", "ffffffff-ffff-ffff-ffff-ffffffffffff", "FFFFFFFF-FFFF-FFFF-FFFF-FFFFFFFFFFFF",
+           "123e4567-e89b-12d3-a456-426614174000", "01890a5d-ac96-774b-bcce-b302099a8057", "1ec9414c-232a-6b00-b3c8-9e6bdeced846"]
+    for v, var in itertools.product("012345678f", "0189abcdef"):
+        out.append(f"12345678-1234-{v}234-{var}234-123456789abc")
+    return out
+
+
+def c16_formats(run):
+    from statham.schema.elements import String, Element
+    from statham.schema.validation.format import format_checker
+    from statham.schema.validation import Format
+    acc = Acc(run, "C16-formats", "RFC 3339 grammar boundaries (dates x times x fractions x offsets x T/t), canonical UUIDs over version/variant nibbles, "
+              "registration histories of length <= 3 on a scratch format name, non-string values")
+    saved = dict(format_checker._callable_register)
+    w = quiet()
+    try:
+        dt, uu = String(format="date-time"), String(format="uuid")
+        for s in rfc3339_pool():
+            acc.case("dt:" + s)
+            k, r = outcome(dt, s)
+            if k != "ok":
+                acc.fail("date-time:" + s, f"RFC 3339 timestamp rejected / error: {r!r:.100}")
+        for s in uuid_pool():
+            acc.case("uuid:" + s)
+            k, r = outcome(uu, s)
+            if k != "ok":
+                acc.fail("uuid:" + s, f"canonical UUID rejected / error: {r!r:.100}")
+        for s in ["99999999999999999999", "", "0", "T", "2020-13-01T00:00:00Z", "not a date", "1" * 400, "\x00", "٣٠"]:
+            acc.case("junk:" + repr(s))
+            for el in (dt, uu):
+                k, r = outcome(el, s)
+                if k == "error":
+                    acc.fail(f"{el.format}:{s!r:.40}", f"{type(r).__name__} escaped from the built-in checker: {r}")
+        # registration histories on a scratch name
+        name = "x-verif-scratch"
+        checkers = {"T": lambda v: True, "F": lambda v: False, "A": lambda v: v.startswith("a")}
+        import itertools
+        el = Element(format=name)
+        for hist in itertools.chain.from_iterable(itertools.product(checkers, repeat=n) for n in range(0, 4)):
+            format_checker._callable_register.pop(name, None)
+            for step in hist:
+                format_checker.register(name)(checkers[step])
+            for v in ["abc", "xyz", "", 5, None, True, 1.5, ["a"], {"a": 1}]:
+                key = f"hist={''.join(hist) or '-'} value={v!r}"
+                acc.case(key)
+                with warnings.catch_warnings(record=True) as wl:
+                    warnings.simplefilter("always")
+                    k, r = outcome(el, copy.deepcopy(v))
+                nwarn = len([x for x in wl if issubclass(x.category, RuntimeWarning)])
+                if isinstance(v, str):
+                    want_ok = checkers[hist[-1]](v) if hist else True
+                    want_warn = 0 if hist else 1
+                else:
+                    want_ok, want_warn = True, 0
+                if (k == "ok") != want_ok:
+                    acc.fail(key, f"verdict {k}, expected {'accept' if want_ok else 'reject'} (last registered checker decides; non-strings never rejected)")
+                if nwarn != want_warn and isinstance(v, str):
+                    acc.fail(key, f"{nwarn} warning(s), expected {want_warn}")
+                if not isinstance(v, str) and nwarn:
+                    acc.fail(key, f"non-string value consulted the register ({nwarn} warnings)")
+    finally:
+        format_checker._callable_register.clear()
+        format_checker._callable_register.update(saved)
+        w.__exit__(None, None, None)
+    return acc.result()
